@@ -103,16 +103,13 @@ def out_key(f) -> str:
 class Obj:
     def __init__(self, pl, names: dict[str, str], lift: dict[str, int], lineage: list[str], feats: dict) -> None:
         self.pl = pl
-        self.names = dict(names)        # original name -> current name (harness bookkeeping for choosing input values)
-        self.lift = dict(lift)          # original root name -> length of the axis added by add_mapspec_axis
+        self.names = dict(names)        # current name -> original name (harness bookkeeping for choosing input values)
+        self.lift = dict(lift)          # current root name -> length of the axis added by add_mapspec_axis
         self.lineage = list(lineage)    # kinds of the operations that produced this object
         self.feats = dict(feats)        # history features used to classify a rejection (never to decide one)
 
     def orig(self, cur: str) -> str | None:
-        for o, c in self.names.items():
-            if c == cur:
-                return o
-        return None
+        return self.names.get(cur)
 
 
 class Family:
@@ -221,10 +218,10 @@ class Family:
             self._finish([i])
 
     def _apply_ren(self, o: Obj, ren: dict[str, str]) -> None:
-        inv = {c: n for n, c in o.names.items()}
-        for c, new in ren.items():
-            if c in inv:
-                o.names[inv[c]] = new
+        moved = {new: o.names.pop(c) for c, new in ren.items() if c in o.names}
+        o.names.update(moved)
+        lifted = {new: o.lift.pop(c) for c, new in ren.items() if c in o.lift}
+        o.lift.update(lifted)
 
     def op_update_renames(self, op: dict) -> None:
         a = args(ren=[[c, name_rec(n)] for c, n in op["ren"].items()])
@@ -320,9 +317,7 @@ class Family:
         r = self._rewrite("add_mapspec_axis", src, args(p=op["p"], k=op["k"]),
                           lambda pl: pl.add_mapspec_axis(op["p"], axis=op["k"]))
         if r is not None:
-            og = o.orig(op["p"])
-            if og is not None:
-                o.lift[og] = op["n"]
+            o.lift[op["p"]] = op["n"]
             o.lineage.append("add_mapspec_axis")
             self._finish([src])
 
@@ -354,8 +349,8 @@ class Family:
         og = o.orig(cur)
         if og is None:
             return {"f": "@k_" + cur, "a": []}
-        if og in o.lift:
-            return {"f": "#arr", "a": [{"f": f"@k_{og}_{j}", "a": []} for j in range(o.lift[og])]}
+        if cur in o.lift:
+            return {"f": "#arr", "a": [{"f": f"@k_{og}_{j}", "a": []} for j in range(o.lift[cur])]}
         return self.base_vals.setdefault(og, {"f": "@k_" + og, "a": []})
 
     @staticmethod
@@ -512,8 +507,8 @@ def gen_op(fam: Family, rng: random.Random, counter: list[int], *, mutation: boo
                 return [{"op": "update_defaults", "src": src, "p": rng.choice(cand), "v": {"f": f"@m_d{c}", "a": []}}]
             k = "update_renames"
         if k == "update_bound":
-            cand = [(f, p) for f in _funcs_sorted(pl) if type(f).__name__ != "NestedPipeFunc" for p in f.parameters
-                    if p not in f._defaults and not (f.mapspec and p in f.mapspec.input_names)]
+            cand = [] if merged else [(f, p) for f in _funcs_sorted(pl) for p in f.parameters
+                                      if p not in f._defaults and not (f.mapspec and p in f.mapspec.input_names)]
             if cand:
                 f, p = rng.choice(cand)
                 fo = [f.output_name] if isinstance(f.output_name, str) else list(f.output_name)
@@ -582,7 +577,7 @@ def gen_op(fam: Family, rng: random.Random, counter: list[int], *, mutation: boo
             for _ in range(rng.choice([0, 1, 1, 2])):
                 if vis and rng.random() < 0.7:
                     cur, og = rng.choice(vis)
-                    if og not in params:
+                    if og not in params and shared.get(og, cur) == cur:
                         params.append(og)
                         shared[og] = cur
                 elif prev and rng.random() < 0.5:
@@ -592,12 +587,13 @@ def gen_op(fam: Family, rng: random.Random, counter: list[int], *, mutation: boo
                     q = f"q{pid}_{j}{len(params)}"
                     params.append(q)
             outs_ = [f"j{pid}_{j}"] if rng.random() < 0.8 else [f"j{pid}_{j}", f"j{pid}_{j}b"]
-            produce_root = [og for cur, og in vis if cur in roots and og not in shared and og not in o.lift
+            produce_root = [(cur, og) for cur, og in vis if cur in roots and og not in shared and cur not in o.lift
                             and fam.base_vals.get(og, {"f": ""})["f"] != "#arr"]
             if j == 0 and produce_root and rng.random() < 0.25:
-                outs_ = [rng.choice(produce_root)]
-                shared[outs_[0]] = o.names[outs_[0]]
-                params = [p for p in params if p != outs_[0]]
+                cur, og = rng.choice(produce_root)
+                outs_ = [og]
+                shared[og] = cur
+                params = [p for p in params if p != og]
             funcs.append({"name": f"fj{pid}_{j}", "params": params, "outputs": outs_, "defaults": [], "bound": [],
                           "has_ms": False, "ms": {"ins": [], "outs": []}, "internal": [], "cache": False})
             prev += outs_
